@@ -259,6 +259,12 @@ def _parse_args(args: list[str] | None = None) -> tuple[Options, set[str], bool]
     # Re-parse with sentinel defaults to detect which flags were actually supplied.
     # append actions use None as sentinel (argparse creates a list when the flag is used).
     sentinel_parser = argparse.ArgumentParser(add_help=False)
+    # The untracked short options are declared too: in a cluster such as `-is` or `-iw50` an
+    # unknown first letter would make argparse skip the whole cluster, and the tracked flags
+    # inside it would not count as explicitly given.
+    sentinel_parser.add_argument("-o", "--output", default=None)
+    sentinel_parser.add_argument("-p", "--plaintext", action="store_true")
+    sentinel_parser.add_argument("-i", "--inplace", action="store_true")
     sentinel_parser.add_argument("-w", "--width", type=int, default=_SENTINEL)
     sentinel_parser.add_argument("-s", "--semantic", action="store_true", default=_SENTINEL)
     sentinel_parser.add_argument("-c", "--cleanups", action="store_true", default=_SENTINEL)
